@@ -25,6 +25,8 @@ def obligations(tier, seed):
     return contracts + per_unit + [
         KaniOb("c18", "c18_from_unit_constructors", "Duration::from_days/hours/seconds/milliseconds/microseconds/nanoseconds and the f64 TimeUnits helpers are x * Unit::<unit> for every finite f64",
                ["Duration::from_days .. from_nanoseconds", "impl TimeUnits for f64"], "every finite f64", tq=1800),
+        KaniOb("c18", "c18_from_unit_small_inputs", "Duration::from_nanoseconds .. from_days end to end (real Unit x f64) on whole counts: exactly k units", ["Duration::from_nanoseconds/microseconds/milliseconds/seconds/hours/days", "impl Mul<f64> for Unit", "Duration::from_truncated_nanoseconds"],
+               "every whole count |k| < 32768 x six constructors", tq=2400),
         KaniOb("c18", "c18_nanoseconds_exact", "whole nanosecond counts |k| < 2^53 as f64 convert exactly", ["impl Mul<f64> for Unit (Nanosecond)"], "every integer |k| < 2^53", tq=900),
         KaniOb("c18", "c18_to_seconds_monotone", "to_seconds: finite, non-decreasing within a century, sign", ["Duration::to_seconds"], "every i16 century x all ordered pairs of nanosecond fields", tq=7200, tt=14400, tier="thorough"),
         KaniOb("c18", "c18_to_unit_total", "to_unit: finite, sign of to_seconds, 9 units", ["Duration::to_unit", "Unit::from_seconds", "Unit::in_seconds"], "all canonical durations x 9 units", tq=1200),
